@@ -492,8 +492,8 @@ class Interp:
     def ev_IfExp(self, n, env, ctx):
         tv = self.ev(n.test, env, ctx)
         self.h_test(tv, n.test, "ifexp", env, ctx)
-        e1 = self.h_assume(tv, n.test, True, env, ctx)
-        e2 = self.h_assume(tv, n.test, False, env, ctx)
+        e1 = self.h_assume(tv, n.test, True, dict(env), ctx)
+        e2 = self.h_assume(tv, n.test, False, dict(env), ctx)
         ctx.pc.append((tv, n.test, None))
         try:
             bv = self.ev(n.body, e1, ctx) if e1 is not None else None
